@@ -32,6 +32,18 @@ verus! {
 
 //@@ INCLUDE gen_model.inc.rs
 
+// ---- further /repo functions with ASSUMED contracts in this unit (bodies pinned) ------------------------------------------------
+//@@ ASSUME src/check/ident.rs | impl Identifier | fields
+//@@ ASSUME src/check/ident.rs | impl Identifier | as_mutable
+//@@ ASSUME src/check/ident.rs | impl TryFrom<&AST> for Identifier | try_from
+//@@ ASSUME src/check/name/mod.rs | free | match_name
+//@@ ASSUME src/check/constrain/generate/collection.rs | free | gen_col
+//@@ ASSUME src/check/constrain/generate/collection.rs | free | gen_col_items
+//@@ ASSUME src/check/constrain/generate/operation.rs | free | gen_primitive
+//@@ ASSUME src/check/context/clss/mod.rs | impl LookupClass<&StringName, Class> for Context | class
+//@@ ASSUME src/check/context/clss/mod.rs | impl LookupClass<&TrueName, Class> for Context | class
+//@@ ASSUME src/check/context/clss/mod.rs | impl HasParent<&Name> for Class | has_parent
+//@@ ASSUME src/check/context/clss/mod.rs | impl HasParent<&TrueName> for Class | has_parent
 // ---- gen_vec: statement sequencing (C09 "the environment returned by a statement is carried to the next") ---------------
 /// envs[i] is the environment before statement i; statement i is visited in it (or in `env` when nothing is carried)
 /// and returns envs[i + 1]
